@@ -646,17 +646,19 @@ def zombie_probe(tree, oneshot):
     src = extract.unparse(fn)
     if "st = cext.%s(pid)[kinfo_proc_map['status']]" % oneshot not in src or not re.search(
             r"except OSError:\s+return False", src):
-        raise NotRecognised("is_zombie frame")
+        return "other-frame"       # total: reported, not skipped (ZProbe.unknown)
     rets = [n for n in ast.walk(fn) if isinstance(n, ast.Return) and not (isinstance(n.value, ast.Constant))]
     if len(rets) != 1:
-        raise NotRecognised("is_zombie returns")
+        return "other-returns:%d" % len(rets)
     u = extract.unparse(rets[0].value)
     if u == "PROC_STATUSES.get(st) == _common.STATUS_ZOMBIE":
         return "procStatuses"
     m = re.fullmatch(r"st == cext\.(\w+)", u)
     if m:
         return "eq:" + m.group(1)
-    raise NotRecognised("is_zombie comparison %s" % u)
+    # total: a comparison of another shape is REPORTED (tag `other:<text>` → ZProbe.unknown in the model, so
+    # C20_zombie_probe_sees_documented_codes fails with the new text) instead of skipping the fact
+    return "other:" + u[:80]
 
 
 # ------------------------------------------------------------------ front-end platform branches
